@@ -29,7 +29,7 @@ e == Log[l]
 ResetVars(c) ==
   /\ opt = (D :> [min |-> c.minT, max |-> c.maxT, asynch |-> c.asynch])
   /\ now = 0
-  /\ sockClosed = FALSE
+  /\ sockClosed = "open"
   /\ pst = [p \in Pipe |-> "unborn"]
   /\ owner = [p \in Pipe |-> NULL]
   /\ added = [p \in Pipe |-> FALSE]
@@ -64,7 +64,7 @@ TInit ==
 ResetNext(c) ==
   /\ opt' = (D :> [min |-> c.minT, max |-> c.maxT, asynch |-> c.asynch])
   /\ now' = 0
-  /\ sockClosed' = FALSE
+  /\ sockClosed' = "open"
   /\ pst' = [p \in Pipe |-> "unborn"]
   /\ owner' = [p \in Pipe |-> NULL]
   /\ added' = [p \in Pipe |-> FALSE]
@@ -150,7 +150,7 @@ Line ==
                  /\ UNCHANGED <<opt, script, appCl>>
             [] e.op = "sclose" ->
                  /\ AtNow
-                 /\ IF sockClosed THEN UNCHANGED vars ELSE SockClose /\ UNCHANGED opt
+                 /\ IF sockClosed # "open" THEN UNCHANGED vars ELSE SockClose /\ UNCHANGED opt
                  /\ UNCHANGED <<script, appCl, pend>>
             [] e.op = "pclose" ->
                  /\ appCl' = appCl \cup {e.o}
